@@ -12,7 +12,7 @@ from harness import core, spell, tomodel
 from harness import am as AMm
 
 LEVEL = "proof"
-CORPUS = "/repo/tests/tests_cli/stately_machines"
+CORPUS = core.REPO + "/tests/tests_cli/stately_machines"
 
 
 # ------------------------------------------------------------------ workers (run in subprocesses of the pool)
